@@ -55,6 +55,23 @@ Theorem C18_reconnect_replaces : forall st g id cid cap c,
 Proof. exact reconnect_replaces. Qed.
 Print Assumptions C18_reconnect_replaces.
 
+(* the listener a long-poll request registers is EXACTLY the one its path names: the group is the first segment, the id
+   everything after it - slashes, trailing ones included - unaltered; "/g/a" and "/g/a/" are different listeners; a path
+   without an id segment registers nothing *)
+Theorem C18_path_names_the_listener : forall g id, no_slash g -> poll_path (String "/" (g ++ String "/" id)) = Some (g, id).
+Proof. exact poll_path_exact. Qed.
+Print Assumptions C18_path_names_the_listener.
+
+Theorem C18_path_without_id_refused : forall g, no_slash g -> poll_path (String "/" g) = None.
+Proof. exact poll_path_needs_id. Qed.
+Print Assumptions C18_path_without_id_refused.
+
+Example C18_path_example :
+  poll_path "/foo/a" = Some ("foo", "a")%string /\ poll_path "/foo/a/" = Some ("foo", "a/")%string /\
+  poll_path "/foo/a/b" = Some ("foo", "a/b")%string /\ poll_path "/foo/" = Some ("foo", "")%string /\ poll_path "/foo" = None.
+Proof. vm_compute. repeat split; reflexivity. Qed.
+
+
 (* ---------- a run ---------- *)
 Definition run_ex :=
   let s0 := mkPS [] 2%nat in
